@@ -67,6 +67,9 @@ func (f *FnVC) call(v ssa.Value, c *ssa.CallCommon, ins ssa.Instruction) {
 		ct = f.g.findExtern(name)
 	} else {
 		callee = c.StaticCallee()
+		if callee != nil && callee.Pkg != nil && callee.Pkg.Pkg.Path() == "sync/atomic" && f.atomicOp(v, callee, c, pos) {
+			return
+		}
 		if callee != nil {
 			name = callee.String()
 			ct = f.g.contractFor(callee)
@@ -76,9 +79,14 @@ func (f *FnVC) call(v ssa.Value, c *ssa.CallCommon, ins ssa.Instruction) {
 			}
 		} else {
 			fv := f.val(c.Value)
+			selfVal = fv
 			f.oblige("panic.nil", "call of nil function "+f.srcText(c.Value), "(not (= "+fv.T+" 0))", pos)
 			name = "func value " + f.srcText(c.Value)
 			if ld, ok := c.Value.(*ssa.UnOp); ok && ld.Op == token.MUL {
+				if gv, ok := ld.X.(*ssa.Global); ok && gv.Pkg != nil {
+					name = "func variable " + gv.Name()
+					ct = f.g.findExternOrRepo(gv.Pkg.Pkg.Path() + ".var:" + gv.Name())
+				}
 				if fa, ok := ld.X.(*ssa.FieldAddr); ok {
 					if nt, ok := fa.X.Type().Underlying().(*types.Pointer).Elem().(*types.Named); ok && nt.Obj().Pkg() != nil {
 						st := nt.Underlying().(*types.Struct)
@@ -222,6 +230,8 @@ func (f *FnVC) bindResults(v ssa.Value, sig *types.Signature, given []TV, names 
 	return out
 }
 
+var selfVal TV
+
 func (f *FnVC) applyContract(ct *Contract, callee *ssa.Function, sig *types.Signature, args []TV, v ssa.Value, pos token.Pos, name string) {
 	short := strings.TrimPrefix(name, f.g.modPath+"/")
 	env := f.baseEnv()
@@ -261,6 +271,9 @@ func (f *FnVC) applyContract(ct *Contract, callee *ssa.Function, sig *types.Sign
 	for i, a := range args {
 		env.vars[fmt.Sprintf("arg%d", i)] = a
 	}
+	if callee == nil && selfVal.T != "" {
+		env.vars["self"] = selfVal
+	}
 	env.st = f.st
 	env.old = f.st
 	env.oldVars = env.vars
@@ -278,6 +291,9 @@ func (f *FnVC) applyContract(ct *Contract, callee *ssa.Function, sig *types.Sign
 	}
 	pre := f.st
 	f.st = f.st.child()
+	// the callee may allocate: advance the allocation counter first, so that heap versions created by the
+	// havoc below are known to hold references allocated up to the post-call counter
+	f.bumpNextref()
 	// havoc the assigns set
 	if ct.AssignsAll {
 		f.havocAll()
@@ -297,10 +313,8 @@ func (f *FnVC) applyContract(ct *Contract, callee *ssa.Function, sig *types.Sign
 			f.havocArgsTV(args)
 		}
 	}
-	f.bumpNextref()
 	var given []TV
 	out := f.bindResults(v, sig, given, nil)
-	defer func() {}()
 	post := f.baseEnv()
 	post.pkg = env.pkg
 	post.lazy = nil
@@ -339,6 +353,9 @@ func (f *FnVC) applyContract(ct *Contract, callee *ssa.Function, sig *types.Sign
 	for _, e := range ct.Ensures {
 		if id, ok := e.E.(SIdent); ok && id.Name == "nopanic" {
 			continue
+		}
+		if e.Tag == "local" {
+			continue // proved for the callee, not handed to callers (keeps callers' queries small)
 		}
 		f.gfact(f.trBool(post, e.E))
 	}
@@ -595,7 +612,7 @@ func (f *FnVC) frameObligations() {
 	wholeOK, allowed := f.frameTargets()
 	nr0 := f.root.get("$nextref")
 	for _, h := range sortedKeys(written) {
-		if h == "$nextref" || wholeOK[h] {
+		if h == "$nextref" || wholeOK[h] || strings.HasPrefix(h, "Gh_$") {
 			continue
 		}
 		for i, r := range f.rets {
@@ -748,4 +765,44 @@ func (f *FnVC) copyBuiltin(v ssa.Value, c *ssa.CallCommon) {
 	if v != nil {
 		f.define(v, n)
 	}
+}
+
+// atomicOp models sync/atomic operations on a location as sequential load/store (the only semantics a
+// sequential calculus has); the instruction is remembered as an atomic access for the permission scan.
+func (f *FnVC) atomicOp(v ssa.Value, callee *ssa.Function, c *ssa.CallCommon, pos token.Pos) bool {
+	name := callee.Name()
+	if len(c.Args) == 0 || callee.Signature.Recv() != nil {
+		return false
+	}
+	if _, ok := c.Args[0].Type().Underlying().(*types.Pointer); !ok {
+		return false
+	}
+	addr := c.Args[0]
+	switch {
+	case strings.HasPrefix(name, "Add") && len(c.Args) == 2:
+		f.nilCheckAddr(addr, pos)
+		loc := f.resolveLoc(addr)
+		old := f.loadLoc(loc, f.st)
+		nv := f.wrap("(+ "+old+" "+f.val(c.Args[1]).T+")", loc.ty)
+		c1 := f.freshConst("atomic", "Int")
+		f.fact(sEq(c1, nv))
+		f.storeLoc(loc, c1)
+		if v != nil {
+			f.define(v, c1)
+		}
+		return true
+	case strings.HasPrefix(name, "Load") && len(c.Args) == 1:
+		f.nilCheckAddr(addr, pos)
+		loc := f.resolveLoc(addr)
+		if v != nil {
+			f.define(v, f.loadLoc(loc, f.st))
+			f.typeFacts(f.val(v), true)
+		}
+		return true
+	case strings.HasPrefix(name, "Store") && len(c.Args) == 2:
+		f.nilCheckAddr(addr, pos)
+		f.storeLoc(f.resolveLoc(addr), f.val(c.Args[1]).T)
+		return true
+	}
+	return false
 }
